@@ -21,7 +21,8 @@ pub mod grp {
     pub const RECLAIM: u32 = 1 << 7; // C13
     pub const CLAIM: u32 = 1 << 8; // C14
     pub const ALIGN: u32 = 1 << 9; // C18
-    pub const ALL: u32 = (1 << 10) - 1;
+    pub const MUTCOLL: u32 = 1 << 10; // C15
+    pub const ALL: u32 = (1 << 11) - 1;
 }
 
 #[derive(Clone, Copy, Debug)]
@@ -560,7 +561,7 @@ impl<'a> Exec<'a> {
                     );
                 }
             }
-            if Via::new(arena, Handle::Direct).is_claimed() {
+            if Via::shared(arena, Handle::Direct).is_claimed() {
                 viol!(self, grp::CLAIM, "original still reports is_claimed() after the guard was dropped");
             }
         }
@@ -711,6 +712,7 @@ impl<'a> Exec<'a> {
                 }
                 self.model.last_returned = None;
             }
+            Op::MutColl(spec) => self.do_mut_coll(arena, &spec),
             Op::Enter(_) | Op::Exit | Op::ExitUnwind => unreachable!(),
         }
         let _ = cfg;
@@ -732,7 +734,7 @@ impl<'a> Exec<'a> {
         slab::with_current(|s| s.calls)
     }
 
-    fn do_alloc(&mut self, arena: &dyn DynArena, h: Handle, layout: Layout, zeroed: bool) {
+    fn do_alloc(&mut self, arena: &mut dyn DynArena, h: Handle, layout: Layout, zeroed: bool) {
         let calls = self.count_calls();
         arena.d_stats(&mut self.st2);
         let count_before = self.st2.count;
@@ -806,7 +808,7 @@ impl<'a> Exec<'a> {
         }
     }
 
-    fn do_grow(&mut self, arena: &dyn DynArena, h: Handle, i: usize, new: Layout, zeroed: bool) {
+    fn do_grow(&mut self, arena: &mut dyn DynArena, h: Handle, i: usize, new: Layout, zeroed: bool) {
         let b = self.model.blocks[i];
         self.note_outer_touch(&b);
         let calls = self.count_calls();
@@ -874,7 +876,7 @@ impl<'a> Exec<'a> {
         if b.addr() >= c.content_start && b.addr() <= c.content_end { Some(c.content_end - b.addr()) } else { None }
     }
 
-    fn do_shrink(&mut self, arena: &dyn DynArena, h: Handle, i: usize, new: Layout) {
+    fn do_shrink(&mut self, arena: &mut dyn DynArena, h: Handle, i: usize, new: Layout) {
         let b = self.model.blocks[i];
         self.note_outer_touch(&b);
         arena.d_stats(&mut self.st2);
@@ -947,7 +949,7 @@ impl<'a> Exec<'a> {
         if up { b.addr() + b.size == c.pos } else { b.addr() == c.pos }
     }
 
-    fn do_dealloc(&mut self, arena: &dyn DynArena, h: Handle, i: usize) {
+    fn do_dealloc(&mut self, arena: &mut dyn DynArena, h: Handle, i: usize) {
         let b = self.model.blocks[i];
         self.note_outer_touch(&b);
         arena.d_stats(&mut self.st2);
@@ -1000,7 +1002,7 @@ impl<'a> Exec<'a> {
         }
     }
 
-    fn do_typed(&mut self, arena: &dyn DynArena, h: Handle, t: TypedOp, try_: bool) {
+    fn do_typed(&mut self, arena: &mut dyn DynArena, h: Handle, t: TypedOp, try_: bool) {
         let calls = self.count_calls();
         arena.d_stats(&mut self.st2);
         let count_before = self.st2.count;
@@ -1051,7 +1053,7 @@ impl<'a> Exec<'a> {
         }
     }
 
-    fn do_shrink_slice(&mut self, arena: &dyn DynArena, h: Handle, i: usize, old_len: usize, new_len: usize) {
+    fn do_shrink_slice(&mut self, arena: &mut dyn DynArena, h: Handle, i: usize, old_len: usize, new_len: usize) {
         let b = self.model.blocks[i];
         self.note_outer_touch(&b);
         let es = b.elem as usize;
@@ -1085,15 +1087,14 @@ impl<'a> Exec<'a> {
         }
     }
 
-    fn do_prep(&mut self, arena: &dyn DynArena, h: Handle, size: usize, align: usize, commit: Commit, rev: bool) {
+    fn do_prep(&mut self, arena: &mut dyn DynArena, h: Handle, size: usize, align: usize, commit: Commit, rev: bool) {
         // contract: sizes are multiples of the alignment (array layouts)
         if size % align != 0 {
             return self.disable();
         }
         let layout = Layout::from_size_align(size, align).unwrap();
         let calls = self.count_calls();
-        let via = Via::new(arena, h);
-        let range = match via.prepare(layout, rev) {
+        let range = match Via::new(arena, h).prepare(layout, rev) {
             Ok(r) => r,
             Err(_) => {
                 self.model.last_returned = None;
@@ -1140,7 +1141,7 @@ impl<'a> Exec<'a> {
             }
         }
         self.dirty_free = true; // data is moved inside the prepared range
-        let p = unsafe { via.commit(clayout, range.clone(), rev) };
+        let p = unsafe { Via::new(arena, h).commit(clayout, range.clone(), rev) };
         let pa = p.as_ptr() as usize;
         if pa < s || pa + csize > e {
             viol!(self, grp::CONTAIN, "allocate_prepared returned {pa:#x}+{csize} outside the prepared range {s:#x}..{e:#x}");
@@ -1158,7 +1159,7 @@ impl<'a> Exec<'a> {
         }
     }
 
-    fn do_prep_slice(&mut self, arena: &dyn DynArena, h: Handle, elem: usize, min_cap: usize, commit: Commit, rev: bool, try_: bool) {
+    fn do_prep_slice(&mut self, arena: &mut dyn DynArena, h: Handle, elem: usize, min_cap: usize, commit: Commit, rev: bool, try_: bool) {
         let calls = self.count_calls();
         let id = self.model.next_id;
         let mut len_chosen = 0usize;
@@ -1210,7 +1211,7 @@ impl<'a> Exec<'a> {
         }
     }
 
-    fn do_reserve(&mut self, arena: &dyn DynArena, h: Handle, n: usize, try_: bool) {
+    fn do_reserve(&mut self, arena: &mut dyn DynArena, h: Handle, n: usize, try_: bool) {
         arena.d_stats(&mut self.st2);
         let before = self.st2.clone();
         let r = Via::new(arena, h).reserve(n, try_);
@@ -1296,10 +1297,116 @@ impl<'a> Exec<'a> {
         }
     }
 
-    fn do_orig(&mut self, arena: &dyn DynArena, orig: &dyn DynArena, o: OrigOp) {
+    fn do_mut_coll(&mut self, arena: &mut dyn DynArena, spec: &crate::mutcoll::MutSpec) {
+        use crate::mutcoll::*;
+        let cfg = arena.d_cfg();
+        let mut rep = MutReport::default();
+        self.dirty_free = true; // the collection legitimately writes into free space while it is being filled
+        arena.d_mut_coll(spec, &mut rep);
+        self.model.last_returned = None;
+        let g = grp::MUTCOLL;
+        if let Some(u) = &rep.unexpected {
+            viol!(self, g, "{:?}: {u}", spec);
+            return;
+        }
+        let expect_panic = spec.end == MutEnd::Unwind;
+        if rep.panicked != expect_panic {
+            viol!(self, g, "{:?}: panicked={} but expected {}", spec, rep.panicked, expect_panic);
+            return;
+        }
+        let before = rep.snaps.first().cloned().unwrap_or_default();
+        let finalised = rep.result.is_some();
+        // -- filling phases, and the end state of a collection that was dropped / unwound: no chunk that existed before
+        //    has a different position (at most a later, still empty chunk became current)
+        let last = rep.snaps.len().saturating_sub(1);
+        for (si, s) in rep.snaps.iter().enumerate().skip(1) {
+            if finalised && si == last {
+                continue;
+            }
+            for (k, b) in before.chunks.iter().enumerate() {
+                match s.chunks.get(k) {
+                    Some(c) if c.0 == b.0 => {
+                        if c.3 != b.3 {
+                            viol!(self, g, "{:?}: bump position of chunk {k} moved from {:#x} to {:#x} in phase '{}' (offset {} → {})", spec, b.3, c.3, s.tag, b.3 - b.0, c.3.wrapping_sub(c.0));
+                            return;
+                        }
+                    }
+                    _ => {
+                        viol!(self, g, "{:?}: chunk {k} disappeared in phase '{}'", spec, s.tag);
+                        return;
+                    }
+                }
+            }
+            // chunks created while filling stay empty
+            for c in s.chunks.iter().skip(before.chunks.len()) {
+                let start = if cfg.up { c.1 } else { c.2 };
+                if c.3 != start {
+                    viol!(self, g, "{:?}: a chunk created while filling has a moved position in phase '{}' ({:#x}, start {:#x})", spec, s.tag, c.3, start);
+                    return;
+                }
+            }
+        }
+        if let Some(blk) = rep.result {
+            if !rep.content_ok {
+                viol!(self, g, "{:?}: the finalised contents differ from what was pushed (len {})", spec, rep.len);
+                return;
+            }
+            let end = rep.snaps.last().unwrap();
+            let bytes = rep.len * rep.elem_size.max(if spec.kind == MutKind::Str || spec.kind == MutKind::FmtMut || spec.kind == MutKind::CstrFmtMut { 1 } else { 0 });
+            let bytes = if rep.elem_size == 0 { 0 } else { bytes };
+            let bound = bytes + (rep.elem_align - 1) + (cfg.min_align - 1);
+            let mut advanced_chunks = 0;
+            for (k, c) in end.chunks.iter().enumerate() {
+                let entry_pos = match before.chunks.get(k) {
+                    Some(b) if b.0 == c.0 => b.3,
+                    _ => {
+                        if cfg.up {
+                            c.1
+                        } else {
+                            c.2
+                        }
+                    }
+                };
+                let adv = if cfg.up { c.3.wrapping_sub(entry_pos) } else { entry_pos.wrapping_sub(c.3) };
+                if adv != 0 {
+                    advanced_chunks += 1;
+                    if adv > bound {
+                        viol!(self, g, "{:?}: finalising advanced the position of chunk {k} by {adv} bytes, more than contents {bytes} + padding bound {}", spec, bound - bytes);
+                        return;
+                    }
+                    // the result must be the memory the position moved over
+                    if blk.len > 0 {
+                        let (lo, hi) = if cfg.up { (entry_pos, c.3) } else { (c.3, entry_pos) };
+                        let a = blk.ptr.as_ptr() as usize;
+                        if a < lo || a + blk.len > hi {
+                            viol!(self, g, "{:?}: the finalised block {:#x}+{} is not inside the bytes the position moved over ({:#x}..{:#x})", spec, a, blk.len, lo, hi);
+                            return;
+                        }
+                    }
+                }
+            }
+            if advanced_chunks > 1 {
+                viol!(self, g, "{:?}: finalising moved the position of {advanced_chunks} chunks", spec);
+                return;
+            }
+            if advanced_chunks == 0 && blk.len > 0 {
+                viol!(self, g, "{:?}: a non-empty result was produced but no position moved (the result is not protected)", spec);
+                return;
+            }
+            if (blk.ptr.as_ptr() as usize) % blk.align != 0 {
+                viol!(self, g, "{:?}: result is not aligned to {}", spec, blk.align);
+                return;
+            }
+            let b = self.new_block(blk.ptr, blk.len, blk.align, 0);
+            unsafe { fill(&b) };
+            self.model.last_returned = None;
+        }
+    }
+
+    fn do_orig(&mut self, arena: &mut dyn DynArena, orig: &dyn DynArena, o: OrigOp) {
         // `orig` is claimed: every memory request fails in the documented way, dealloc/shrink do nothing.
         let h = self.opts.h;
-        let via = Via::new(orig, h);
+        let mut via = Via::shared(orig, h);
         arena.d_stats(&mut self.st2);
         let guard_before = (self.st2.allocated, self.st2.count, self.st2.current.map(|c| c.pos));
         let calls = self.count_calls();
@@ -1690,7 +1797,7 @@ impl<'a> Exec<'a> {
             viol!(self, g, "any_stats() differs from stats(): {d}");
         }
         if self.opts.h != Handle::Direct {
-            Via::new(arena, self.opts.h).any_stats(&mut self.st2);
+            Via::shared(arena, self.opts.h).any_stats(&mut self.st2);
             if self.st2 != st {
                 let d = diff_stats(&st, &self.st2);
                 viol!(self, g, "any_stats() through {} differs from stats(): {d}", self.opts.h.name());
